@@ -28,7 +28,14 @@ fn tuples_from_json(rows: &J) -> Vec<Tuple> {
                 .map(|r| {
                     Tuple::new(
                         r.as_array()
-                            .map(|c| c.iter().map(|x| Value::Int64(x.as_i64().unwrap_or(0))).collect())
+                            .map(|c| {
+                                c.iter()
+                                    .map(|x| match x.as_str() {
+                                        Some(st) => Value::string(st),
+                                        None => Value::Int64(x.as_i64().unwrap_or(0)),
+                                    })
+                                    .collect()
+                            })
                             .unwrap_or_default(),
                     )
                 })
@@ -44,6 +51,7 @@ fn value_to_json(v: &Value) -> J {
         Value::Float64(f) => json!({"f64": f}),
         Value::Bool(b) => json!({"bool": b}),
         Value::Null => J::Null,
+        Value::String(st) => json!(st.to_string()),
         other => json!({"other": format!("{other:?}")}),
     }
 }
